@@ -167,6 +167,7 @@ func genFasta(r *core.Rng, sz Size) Doc {
 func genFastq(r *core.Rng, sz Size) Doc {
 	var d Doc
 	n := nrec(r, sz)
+	edgeRec := r.Intn(n + 1) // at most one record carries an edge-length line
 	bud := budget(r, sz) / 2
 	if sz == Large {
 		bud *= 2 // lines beyond bufio.Scanner's 64 KiB token limit
@@ -182,7 +183,7 @@ func genFastq(r *core.Rng, sz Size) Doc {
 		if l > 65000 && r.Chance(0.5) {
 			l = 65000 // stay below the scanner limit in about half of the large records
 		}
-		if e, ok := edgeLen(r, sz); ok && (i == n-1 || r.Chance(0.3)) {
+		if e, ok := edgeLen(r, sz); ok && i == edgeRec {
 			l = e
 			if r.Chance(0.15) {
 				name = r.Bytes(e-1, nameAlpha)
@@ -240,6 +241,7 @@ func samTag(r *core.Rng, i int) string {
 func genSam(r *core.Rng, sz Size) Doc {
 	var d Doc
 	n := nrec(r, sz)
+	edgeRec := r.Intn(n + 1)
 	lens := splitBudget(r, budget(r, sz)/2, n)
 	if sz != Tiny {
 		for h := r.Intn(4); h > 0; h-- {
@@ -251,7 +253,7 @@ func genSam(r *core.Rng, sz Size) Doc {
 	for i := 0; i < n; i++ {
 		l := lens[i]
 		e, edge := edgeLen(r, sz)
-		edge = edge && (i == n-1 || r.Chance(0.3))
+		edge = edge && i == edgeRec
 		if edge {
 			l = r.Range(0, 40)
 		}
@@ -304,6 +306,10 @@ func genBed(r *core.Rng, sz Size) Doc {
 	if sz == Tiny {
 		nf = 3
 	}
+	edgeRec := r.Intn(n + 1)
+	if sz == Huge {
+		edgeRec = 0
+	}
 	for i := 0; i < n; i++ {
 		if sz != Tiny && r.Chance(0.08) {
 			d.Lines = append(d.Lines, []byte("#"+word(r, 0, 10)+"\ttrack\t"))
@@ -322,7 +328,7 @@ func genBed(r *core.Rng, sz Size) Doc {
 		if sz == Tiny {
 			f[1], f[2] = strconv.Itoa(r.Intn(10)), strconv.Itoa(r.Intn(10))
 		}
-		if e, ok := edgeLen(r, sz); ok && (r.Chance(0.3) || sz == Huge && i == 0) {
+		if e, ok := edgeLen(r, sz); ok && i == edgeRec {
 			if nf > 3 {
 				if need := e - len(strings.Join(f[:nf], "\t")); need > 0 {
 					f[3] += string(r.Bytes(need, wordAlpha))
@@ -399,10 +405,14 @@ func genNewick(r *core.Rng, sz Size) Doc {
 	}
 	var line []byte
 	ws := r.Chance(0.5)
+	edgeRec := r.Intn(n + 1)
+	if sz == Huge {
+		edgeRec = 0
+	}
 	for i := 0; i < n; i++ {
 		var toks []string
 		nwkTree(r, depth, 12, &toks)
-		if e, ok := edgeLen(r, sz); ok && (r.Chance(0.1) || sz == Huge && i == 0) {
+		if e, ok := edgeLen(r, sz); ok && i == edgeRec {
 			toks = append([]string{"(", "'" + string(r.Bytes(e, "ab (),:;_")) + "'", ")"}, toks...)
 			if len(toks) > 3 && toks[3] != ":" && toks[3] != ";" {
 				toks = toks[:3] // "(name)" followed directly by a name token would not be well-formed
